@@ -67,7 +67,7 @@ func cmdConform(args []string) int {
 	sort.Strings(keys)
 	tested, conform, skipped, failed := 0, 0, 0, 0
 	for _, k := range keys {
-		for _, fn := range P.FindFunc(k) {
+		for _, fn := range P.FindFunc(baseKey(k)) {
 			r := VerifyFunc(P, db, fn, db.Contracts[k])
 			if r.Err != nil || (r.LoopCount > 0 && !all) {
 				skipped++
